@@ -51,11 +51,20 @@ class SArr:
         n = self.dims[0]
         if interp.ex.branch(z3.Or(it >= n, it < -n)):
             interp.raise_exc('IndexError', 'index out of range', node)
-        pos = z3.simplify(z3.If(it < 0, it + n, it))
+        # decide the sign on the path (usually already known): keeps index terms syntactically simple
+        pos = z3.simplify(it + n) if interp.ex.branch(it < 0) else z3.simplify(it)
         return self.at(interp, pos)
 
     def at(self, interp, pos):
         """cell / sub-array at an index term known to be within bounds"""
+        r = self._at(interp, pos)
+        import os
+        if os.environ.get('PYVC_DEBUG') == 'at':
+            print('AT', self.name, self.dims and str(self.dims[0])[:30].replace(chr(10), ' '), '->',
+                  getattr(r, 'name', repr(r)[:30]))
+        return r
+
+    def _at(self, interp, pos):
         fixed = self.fixed + (pos,)
         if len(self.dims) > 1:
             return SArr(self.name, self.dims[1:], fixed, self.elem, self.kind, self.arity, self.alts)
@@ -81,10 +90,80 @@ class SArr:
         return SArr(self.name + (f'|{label}' if label else ''), [self.dims[0]], (), elem, 'list', 1, self.alts)
 
 
+def derived(length, elem, kind='tuple', label='derived'):
+    """1-level array given by a length term and an element function of one index term"""
+    return SArr(label, [z3.simplify(length)], (), lambda interp, idxs: elem(interp, idxs[0]), kind, 1)
+
+
+def as_array(interp, v):
+    """SArr view of a concrete tuple/list (of possibly symbolic items)"""
+    if isinstance(v, SArr):
+        return v
+    items = list(v)
+
+    def elem(i, idx):
+        for k, x in enumerate(items[:-1]):
+            if i.ex.branch(idx == k):
+                return x
+        return items[-1]
+    return derived(z3.IntVal(len(items)), elem, 'tuple' if isinstance(v, tuple) else 'list', 'const')
+
+
+def seq_repeat(interp, seq, k):
+    """seq * k"""
+    a = as_array(interp, seq)
+    kt = as_int_term(k)
+    n = a.dims[0]
+    length = z3.If(z3.And(kt > 0, n > 0), kt * n, z3.IntVal(0))
+    if isinstance(seq, (tuple, list)) and len(seq) == 1:
+        item = seq[0]
+        return derived(length, lambda i, idx: item, a.kind, f'repeat1[{type(item).__name__}]')
+    def elem(i, idx):
+        if i.ex.branch(n == 1):
+            return a.at(i, z3.IntVal(0))          # a single item repeated: no modulo in the index term
+        return a.at(i, z3.simplify(idx % n))
+    return derived(length, elem, a.kind, 'repeat')
+
+
+def seq_concat(interp, a, b):
+    a = as_array(interp, a)
+    b = as_array(interp, b)
+    n1 = a.dims[0]
+
+    def elem(i, idx):
+        if i.ex.branch(idx < n1):
+            return a.at(i, idx)
+        return b.at(i, z3.simplify(idx - n1))
+    return derived(n1 + b.dims[0], elem, a.kind, 'concat')
+
+
+def seq_slice(interp, a, lo, hi, node):
+    n = a.dims[0]
+    start, stop = interp.clamp_slice(n, lo, hi)
+    ln = z3.simplify(z3.If(stop > start, stop - start, z3.IntVal(0)))
+    start = z3.simplify(start)
+    return derived(ln, lambda i, idx: a.at(i, z3.simplify(start + idx)), a.kind, 'slice')
+
+
 def base_cell(interp, name, arity, idxs, alts=ALTS):
     """The dynamically typed cell at the given index terms: forks over the cell type."""
     TAG, VB, VI, VF, VS = _ufs(name, arity)
     ex = interp.ex
+    # the same cell read twice on a path (possibly through differently written index terms) is the
+    # same value: reuse the earlier read when the path condition forces the indices to coincide
+    for (pname, pidx, pval) in ex.cell_reads:
+        if pname == name and len(pidx) == len(idxs):
+            if all(a.eq(b) for a, b in zip(pidx, idxs)):
+                return pval
+            diff = z3.Or(*[a != b for a, b in zip(pidx, idxs)])
+            if ex._check(diff) == z3.unsat:
+                return pval
+    val = _fork_cell(ex, TAG, VB, VI, VF, VS, idxs, alts)
+    ex.cell_reads.append((name, tuple(idxs), val))
+    return val
+
+
+def _fork_cell(ex, TAG, VB, VI, VF, VS, idxs, alts):
     tag = TAG(*idxs)
     ex.add_axiom(z3.And(tag >= 0, tag < len(ALTS)))
     for k, alt in enumerate(ALTS):
@@ -122,6 +201,9 @@ def comprehension_over_array(interp, node, env, arr):
     if len(node.generators) != 1 or node.generators[0].ifs:
         raise Unsupported('filtering / nested comprehension over a symbolic array', node)
     g = node.generators[0]
+    # the comprehension is materialised lazily (per element): freeze the local bindings now, as an
+    # eager python comprehension would have used them
+    env = Env(dict(env.vars), env.parent, env.module)
 
     def f(i, v):
         cenv = Env({}, env, env.module)
